@@ -1,7 +1,7 @@
 (* C01 — Mesh cells tile the region; index<->coordinate maps are mutually inverse.
    This file holds ONLY statements, each closed by [exact] of a lemma proved in proofs/,
    followed by Print Assumptions. *)
-From DF Require Import Prelude Constants_gen Region Mesh C01_axis C01_nd C01_lattice.
+From DF Require Import Prelude Constants_gen Region Mesh C01_axis C01_nd C01_lattice C01_tiling.
 Open Scope Q_scope.
 
 (* centres are pmin + (i + 1/2) * cell, cell = edges / n *)
@@ -126,3 +126,15 @@ Example C01_nonvacuous :
   wf_mesh m /\ (exists p, index2point m [3; 0]%Z = OK p /\ qlist_eqb p [7 # 2; (-3) # 4] = true) /\
   point2index m [4; (-1)] = OK [3; 0]%Z.
 Proof. exact nonvacuous_mesh. Qed.
+
+(* n-dimensional tiling: every point of the half-open region lies in exactly one cell —
+   the one point2index returns *)
+Theorem C01_tiling_exists : forall m : mesh, wf_mesh m -> forall p : list Q,
+  in_half_open m p -> exists i, point2index m p = OK i /\ in_cell m i p.
+Proof. exact tiling_exists. Qed.
+Print Assumptions C01_tiling_exists.
+
+Theorem C01_tiling_unique : forall m : mesh, wf_mesh m -> forall (p : list Q) (i j : list Z),
+  in_cell m i p -> in_cell m j p -> i = j.
+Proof. exact tiling_unique. Qed.
+Print Assumptions C01_tiling_unique.
